@@ -25,6 +25,24 @@ from numpy import ndarray
 
 from oqupy.config import PROGRESS_TYPE
 
+# -- time grid utils ----------------------------------------------------------
+
+def get_number_of_steps(
+        start_time: float,
+        end_time: float,
+        dt: float) -> int:
+    """
+    Return the number of whole time steps of length `dt` that fit between
+    `start_time` and `end_time`. An `end_time` that coincides with a grid
+    point `start_time + n*dt` up to floating point rounding counts as
+    reached (e.g. 0.3 with a time step of 0.1 gives 3 steps).
+    """
+    ratio = (end_time - start_time) / dt
+    nearest = np.round(ratio)
+    if abs(ratio - nearest) <= 1.0e-9 * max(1.0, abs(nearest)):
+        return int(nearest)
+    return int(ratio)
+
 # -- numpy utils --------------------------------------------------------------
 
 def create_delta(
